@@ -454,7 +454,7 @@ func (s *streamGRPC) RecvMsg(m interface{}) error {
 	}
 	if stats := s.opts.statsHandler; stats != nil {
 		// TODO: raw payload stats.
-		b := b[headerLen:] // shadow
+		// b is the message payload: the frame header was read separately.
 		stats.HandleRPC(s.ctx, inPayload(false, m, b, time.Now()))
 	}
 	return nil
